@@ -274,3 +274,33 @@ func Reads() int {
 	}
 	return s + st.n + len(m) + counter // benign
 }
+
+// ---- local aliases (flow-insensitive; parameters are not tracked)
+var ptrs = []*state{{}}
+
+func Aliases(src []byte) {
+	p := one                 // benign
+	p.SetInt64(0)            // want: call one SetInt64
+	t := table[:]            // want: addr table
+	t[0] = 1                 // want: write table
+	copy(t, src)             // want: write table
+	q := &st                 // want: addr st
+	q.n = 1                  // want: write st
+	var r = sl               // benign
+	r[0]++                   // want: write sl
+	c := getCurve()          // benign
+	c.Params().N.SetInt64(0) // want: call cur Params; call cur SetInt64
+	k := counter             // benign
+	k++                      // benign
+	for _, e := range ptrs { // benign
+		e.n = 1 // want: write ptrs
+	}
+	var late *big.Int
+	late.SetInt64(2)             // want: call n SetInt64
+	late = n                     // benign
+	fresh := new(big.Int).Set(n) // benign
+	fresh.SetInt64(1)            // benign
+	t = src                      // benign
+	p = nil                      // benign
+	_ = &p                       // benign
+}
